@@ -100,3 +100,34 @@ Example C20_example :
   (exists c', alloc_efc true 584 [(8, 4); (16, 8)] wit_c = Done 0 c' /\ warns c' = [(WARN_CNSTRFULL, 256)]) /\
   (exists c', alloc_efc true 584 [(4, 4); (8, 8)] wit_c = Done 1 c' /\ efcp c' = [4096; 4104]).
 Proof. vm_compute. repeat split; try reflexivity; eexists; split; reflexivity. Qed.
+
+(* mj_makeY (sparse and dense branch) and the dense branch of mj_makeAR, for every list of phases
+   (mjSTACKALLOCs, then a group of arena allocations tested together; [phase_ok]: sizes in range,
+   power-of-two alignments, and the NULL test looks at EVERY pointer of the group): the function
+   never writes through NULL; it raises mju_error (stack overflow), or returns with pstack and pbase
+   restored and either all arrays allocated (non-NULL, constraint set unchanged) or the failure
+   state of the other sites (every efc/island/dual pointer NULL, nefc = nisland = 0, parena rolled
+   back to the contact array, mjWARN_CNSTRFULL). *)
+Theorem C20_alloc_dual :
+  forall gs gt ga csz phs c g,
+    CInv csz c g -> 0 < csz -> Forall (phase_ok gs ga (narena (ms c))) phs ->
+    alloc_dual gs gt ga csz phs c = ErrExit c \/
+    exists ret c', alloc_dual gs gt ga csz phs c = Done ret c' /\ CInv csz c' g /\
+      ncon c' = ncon c /\ pstack (ms c') = pstack (ms c) /\ pbase (ms c') = pbase (ms c) /\
+      ((ret = 1 /\ has_null (dualp c') = false /\ nefc c' = nefc c /\ efcp c' = efcp c /\ islp c' = islp c /\
+        warns c' = warns c)
+       \/ (ret = 0 /\ parena (ms c') = ncon c * csz /\ all_null (efcp c') /\ all_null (islp c') /\
+           all_null (dualp c') /\ nefc c' = 0 /\ nisland c' = 0 /\
+           warns c' = (WARN_CNSTRFULL, narena (ms c)) :: warns c)).
+Proof. exact alloc_dual_thm. Qed.
+Print Assumptions C20_alloc_dual.
+
+(* the hypothesis on the NULL test is needed: a test that leaves out one pointer of a group (the
+   second of two) writes through NULL when only the first array fits; with the complete test the
+   same state gives the failure branch *)
+Theorem C20_untested_pointer_refuted :
+  exists c g, CInv 584 c g /\
+    alloc_dual true true true 584 [([], [(64, 8); (32, 4)], [0%nat])] c = NullWrite /\
+    alloc_dual true true true 584 [([], [(64, 8); (32, 4)], [0%nat; 1%nat])] c <> NullWrite.
+Proof. exact alloc_dual_refuted. Qed.
+Print Assumptions C20_untested_pointer_refuted.
